@@ -9,9 +9,38 @@ import buildfam
 BUILD_ATTR = [(r".*", r".*", ["C19"])]
 
 
+KK = ["job", "job", "job", "job", "seq", "seq", "sched", "pure"]
+PROG = __import__("re").compile(r'^"PROG\|(.*)"$')
+
+
+def generated_programs(count, seed, workdir):
+    """spec -> code: programs built statement by statement by TLC (-simulate on MC_Build),
+    with the design invariants of Build.tla checked on the way"""
+    import tlc
+    rc, out = tlc.run("MC_Build.tla", "MC_Build.cfg", workers=1, scratch=workdir, timeout=600,
+                      extra=["-simulate", "num=%d" % max(50, count // 40), "-depth", "12", "-seed", str(seed + 7)])
+    if tlc.violated(out):
+        raise tlc.TlcFailure("Build.tla violates its own invariant:\n" + out[-3000:])
+    progs, seen = [], set()
+    for line in out.splitlines():
+        m = PROG.match(line)
+        if not m or m.group(1) in seen:
+            continue
+        seen.add(m.group(1))
+        steps = json.loads(m.group(1).replace('\\"', '"'))
+        progs.append({"pid": 0, "kind": KK, "steps": steps})
+        if len(progs) >= count:
+            break
+    return progs
+
+
 def run(tier, seed, workdir):
     started = time.time()
     progs = buildfam.programs(tier, seed)
+    tlcgen = generated_programs(1500 if tier == "quick" else 20000, seed, workdir)
+    progs += tlcgen
+    for i, prog in enumerate(progs):
+        prog["pid"] = i + 1
     recs, rejected, gen, dist = structcheck.validate_all(progs, workdir, "builddrv.py",
                                                          "BuildTrace.tla", "BuildTrace.cfg")
     seen = set()
@@ -38,6 +67,6 @@ def run(tier, seed, workdir):
                    "statement TLC compares exception, requirements, members and sequence contents with "
                    "Build.tla; distinct = distinct program text; non-trivial = uses a Sequence or a nested "
                    "collection argument",
-           "statement_outcomes": ops, "exhaustive": False}
+           "statement_outcomes": ops, "programs_generated_by_tlc": len(tlcgen), "exhaustive": False}
     return structcheck.finish("C19", tier, seed, started, len(progs), recs, rejected, BUILD_ATTR, cov,
                               nontriv, samples)
